@@ -167,7 +167,7 @@ def _read_shapes(peek=False):
                                                        'bin', 'bits', 'bytes', 'pad')] \
         + [('dtype', n, 'neglen') for n in ('uint', 'int', 'bits', 'bin', 'pad', 'bytes')] + [('dtype', 'bool', None)] \
         + [('str', 'uint:12'), ('str', 'hex'), ('str', 'bin'), ('str', 'bytes'), ('str', 'bits'), ('str', 'oct'),
-           ('str', 'ue'), ('str', 'se')]
+           ('str', 'ue'), ('str', 'se'), ('str', 'uie'), ('str', 'sie')]
     for cls, st in STREAM_STATES:
         for k in kinds:
             def build(S, interp, cls=cls, st=st, k=k):
@@ -242,6 +242,19 @@ def _read_core(C, self, fmt, advance=True):
             c = m if sym.truth(sym.eq(c % 2, 1)) else -m
         if advance:
             self.attrs['_pos'] = newp
+        return c
+    if name in ('uie', 'sie'):
+        from .golomb import readuie_core
+        if C.lsb0:
+            C.throw('ReadError')
+        T = win(p, V.n)
+        c, used = readuie_core(C, T, 0)
+        if name == 'sie' and not sym.truth(sym.eq(c, 0)):
+            if sym.truth(used >= T.n):
+                C.throw('ReadError')
+            c, used = (-c if sym.truth(T.bit(used)) else c), used + 1
+        if advance:
+            self.attrs['_pos'] = p + used
         return c
     unit = FIXED[name][0] if name in FIXED else 1
     if L is None:
